@@ -1,0 +1,58 @@
+//go:build verif
+
+package verifhook
+
+import (
+	"sync"
+	"sync/atomic"
+	"time"
+
+	"github.com/vulcand/oxy/v2/internal/holsterv4/clock"
+)
+
+// Event is one linearization-point record. Seq is taken while the lock that
+// protects the described state change is still held by the emitting goroutine,
+// so Seq order is the order of the critical sections of one object.
+type Event struct {
+	Seq  int64
+	Comp string
+	Ev   string
+	Obj  interface{}
+	Args []interface{}
+}
+
+var (
+	seq  atomic.Int64
+	mu   sync.RWMutex
+	sink func(Event)
+)
+
+// SetSink installs (or with nil removes) the event sink.
+func SetSink(f func(Event)) {
+	mu.Lock()
+	sink = f
+	mu.Unlock()
+}
+
+// Emit records an event if a sink is installed.
+func Emit(comp, ev string, obj interface{}, args ...interface{}) {
+	mu.RLock()
+	f := sink
+	mu.RUnlock()
+	if f == nil {
+		return
+	}
+	f(Event{Seq: seq.Add(1), Comp: comp, Ev: ev, Obj: obj, Args: args})
+}
+
+// Freeze freezes the library clock at t.
+func Freeze(t time.Time) { clock.Freeze(t) }
+
+// Unfreeze returns to the system clock.
+func Unfreeze() { clock.Unfreeze() }
+
+// Advance moves the frozen clock forward.
+func Advance(d time.Duration) { clock.Advance(d) }
+
+// Now reads the library clock.
+func Now() time.Time { return clock.Now() }
